@@ -9,7 +9,7 @@ VERIF = os.path.dirname(os.path.dirname(os.path.abspath(__file__)))
 CLAIMED = {
     "C01": dict(
         cat="model_checking", ref="DESIGN.md §7 C01",
-        technique="TLC trace validation of recorded call/return histories against the abstract-map TLA+ spec (Trace_Lin) + TLC exhaustive check of the implementation-shaped spec (Flurry.tla) + step-level conformance: Flurry.tla's own actions replayed by TLC along the recorded stream of shared-memory accesses (Trace_Flurry)",
+        technique="TLC trace validation of recorded call/return histories against the abstract-map TLA+ spec (Trace_Lin) + TLC exhaustive check of the implementation-shaped spec (Flurry.tla) + step-level conformance: Flurry.tla's own actions replayed by TLC along the recorded stream of shared-memory accesses (Trace_Flurry), and TLC-generated behaviours of Flurry.tla stepped through the crate access by access (Gen_Flurry / specreplay)",
         text="Every explored execution of the real crate (programs of 2-4 threads over 11 initial table shapes, scheduled at "
              "shared-access granularity by the cooperative scheduler, plus real-thread runs) yields a call/return history that TLC "
              "accepts against the abstract map specification: some linearization explains every result and the final lookups. "
